@@ -1344,8 +1344,13 @@ class PsiContour:
         This should converge quickly if the original point is sufficiently close.
         """
 
+        # search across the flux surfaces, i.e. along the normal to the contour (as
+        # refinePointLinesearch does): psi is stationary along the tangent
+        modTangent = numpy.sqrt(tangent.R**2 + tangent.Z**2)
+        normal = Point2D(tangent.Z / modTangent, -tangent.R / modTangent)
+
         def f(s):
-            return psi(*(p + s * tangent)) - self.psival
+            return psi(*(p + s * normal)) - self.psival
 
         def dfds(s, eps=1e-10):
             return (f(s + eps) - f(s)) / eps
@@ -1368,7 +1373,7 @@ class PsiContour:
             attempts.append((count, s, fnext))
             if abs(fnext) < atol:
                 # Converged
-                return p + s * tangent
+                return p + s * normal
             if abs(fnext) > abs(fprev) or count > 10:
                 raise SolutionError("Diverging newton iteration")
             count += 1
